@@ -122,6 +122,40 @@ def run(ctx):
                     if o2[0] != 'ok' or not br.bits(o1[1]) <= br.bits(o2[1]):
                         viol('cast-monotone', s=a, s2=a2, t=b, small=o1, big=o2)
 
+    # the same narrowing through its entry point on AST nodes: a reference node stores the type set it is given, so
+    # node.cast(t) must carry exactly stored & t (or raise a type error when that is empty), for every pair
+    from hpl.ast import HplFieldAccess, HplThisMessage, HplVarReference
+
+    def node_for(kind, m):
+        if kind == 'var':
+            return HplVarReference('@v', data_type=m)
+        return HplFieldAccess(HplThisMessage(), 'f', data_type=m)
+    for i, s in enumerate(subsets):
+        if not ctx.mine(i) or not s:
+            continue
+        for kind in ('var', 'field'):
+            on = _outcome(lambda: node_for(kind, members[i]))
+            if on[0] != 'ok' or br.bits(on[1].data_type) != s or not s <= br.bits(on[1].default_data_type):
+                # the constructor does not admit this type set for this kind of node, or admits it although it sticks
+                # out of the kind's default set - narrowing such a node also intersects with the default, which is
+                # node policy, not the type-set algebra this property is about
+                continue
+            node = on[1]
+            for j, t in enumerate(subsets):
+                if not t:
+                    continue
+                inter = s & t
+                oc = _outcome(lambda: node.cast(members[j]))
+                ctx.evaluation(f'node/{kind}/{i}/{j}', nontrivial=bool(inter) and s != ANY and t != ANY)
+                ctx.count('node_casts_judged')
+                if inter:
+                    if oc[0] != 'ok' or br.bits(oc[1].data_type) != inter:
+                        viol('node-cast', node=kind, s=members[i], t=members[j], expected=sorted(inter),
+                             observed=str(oc[1].data_type) if oc[0] == 'ok' else oc)
+                elif oc[0] != 'TypeError':
+                    viol('node-cast-disjoint', node=kind, s=members[i], t=members[j],
+                         observed=str(oc[1].data_type) if oc[0] == 'ok' else oc)
+
     # unions of 0..4 operands (least upper bound)
     rng = ctx.rng
     n_unions = ctx.share(4000 if ctx.tier == 'quick' else 60000)
